@@ -242,6 +242,14 @@ void mcount_auto_restore(struct mcount_thread_data *mtdp)
 	while (prev_rstack >= mtdp->rstack) {
 		unsigned long parent_ip = prev_rstack->parent_ip;
 
+		/*
+		 * -finstrument-functions: no return slot of its own, and when it
+		 * was tail-called from a hooked function its parent is the hook.
+		 * mcount_auto_rehook() would not find the slot again.
+		 */
+		if (prev_rstack->parent_loc == &mtdp->cygprof_dummy)
+			return;
+
 		/* parent also can be tail-called; skip */
 		if (parent_ip == mcount_return_fn || parent_ip == (unsigned long)plthook_return) {
 			prev_rstack--;
